@@ -83,15 +83,30 @@ def cli_post(c):
     code = r.const() if hasattr(r, "const") else None
     errs = [p for p in g.get("prints", ()) if _is_stderr(p[1])]
     outs = [p for p in g.get("prints", ()) if not _is_stderr(p[1])]
-    c.note = (f"exit={code} log_silenced={bool(g.get('log_silenced'))} stdout_dirty={bool(g.get('stdout_dirty'))} stdout_writes={g.get('stdout_writes', 0)} "
+    c.note = (f"exit={code} stdout_dirty={bool(g.get('stdout_dirty'))} stdout_writes={g.get('stdout_writes', 0)} "
               f"stderr_lines={len(errs)} prints_to_stdout={len(outs)}")
     if code == 0:
         return z3.BoolVal(g.get("stdout_writes", 0) >= 1 and not errs and not outs)
     if code == 1:
-        # exactly one stderr line: our own print, and no log record may reach logging's last-resort stderr handler
-        n = g.get("root_handlers_n")
-        silenced = z3.Or(z3.BoolVal(bool(g.get("log_silenced"))), n > 0) if n is not None else z3.BoolVal(bool(g.get("log_silenced")))
-        return z3.And(z3.BoolVal(not g.get("stdout_dirty") and len(errs) == 1 and not outs), silenced)
+        # exactly one stderr line: our own print, and no log record of ANY logger (third-party parsers warn on hostile input) may
+        # reach stderr -- neither through logging's last-resort handler nor through a stream handler on the root logger
+        from contracts import c01_logging
+        silenced, lnote = c01_logging.silenced_term(g)
+        c.note += " " + lnote
+        # direct sys.stderr.write(text): lines of the written text, counted on its constant parts (a symbolic part -- the exception
+        # message -- is taken to contain no line break, exactly as for print); a text that is no string term is not modelled -> unknown
+        writes = tuple(g.get("stderr_writes", ()))
+        nlines, unsure = len(errs), False
+        for w in writes:
+            if w is None:
+                unsure = True
+            else:
+                nlines += w
+        c.note += f" stderr_lines_written_directly={[w for w in writes]}" if writes else ""
+        one_line = z3.BoolVal(nlines == 1)
+        if unsure and nlines <= 1:
+            one_line = c01_logging.MARK
+        return z3.And(z3.BoolVal(not g.get("stdout_dirty") and not outs), one_line, silenced)
     return z3.BoolVal(False)
 
 
@@ -136,40 +151,38 @@ def install_cli(reg):
         return [(st, NONE)]
 
     reg.ext_models["sys.stdout.write"] = m_stdout_write
+
+    def m_stderr_write(ex, st, args, kwargs, node):
+        """sys.stderr.write(s): recorded as the number of lines it writes -- the diagnostic must stay ONE line however it is written"""
+        a = args[0] if args else None
+        n = None
+        if isinstance(a, VStr):
+            parts, todo = [], [a.t]
+            while todo:
+                t = todo.pop()
+                if z3.is_app(t) and t.decl().kind() == z3.Z3_OP_SEQ_CONCAT:
+                    todo.extend(reversed(t.children()))
+                else:
+                    parts.append(VStr(t).const())
+            n = sum(p_.count("\n") for p_ in parts if p_ is not None)
+            if parts and not (parts[-1] is not None and (parts[-1].endswith("\n") or parts[-1] == "")):
+                n += 1          # an unterminated last line is still a line on the terminal
+        st.ghost["stderr_writes"] = tuple(st.ghost.get("stderr_writes", ())) + (n,)
+        return [(st, VUnk("n"))]
+
+    reg.ext_models["sys.stderr.write"] = m_stderr_write
     def m_json_dumps(ex, st, args, kwargs, node):
         """json.dumps(obj): pure; raises (TypeError/ValueError/...) or returns a str -- no output effect."""
         import z3 as _z3
         ex.exc_any(st.fork(), f"{ex.loc(node)} json.dumps")
         return [(st, VStr(_z3.String(fresh_name("json_text"))))]
 
-    # logging: records of unconfigured loggers go to the last-resort handler (stderr) unless the root logger has a handler
-    def m_get_logger(ex, st, args, kwargs, node):
-        return [(st, VExt("Logger"))]
-
-    def a_handlers(ex, st, obj):
-        import z3 as _z3
-        from pyvc.values import VSeq
-        n = _z3.Int(fresh_name("n_root_handlers"))
-        st.assume(n >= 0)
-        st.ghost["root_handlers_n"] = n
-        return VSeq(n, lambda i: VUnk("handler"), "handler")
-
-    def m_add_handler(ex, st, obj, args, kwargs, node):
-        st.ghost["log_silenced"] = True
-        return [(st, NONE)]
-
-    class _H:
-        pass
-
-    def a_handlers_fork(ex, st, obj):
-        # value of `.handlers`: unknown list; when it is non-empty logging is configured by the embedding application
-        return VUnk("handlers")
-
-    reg.ext_models["logging.getLogger"] = m_get_logger
-    reg.ext_models[("new", "logging.NullHandler")] = lambda ex, st, args, kwargs, node: [(st, VExt("Handler"))]
-    reg.ext_models["logging.basicConfig"] = lambda ex, st, args, kwargs, node: (st.ghost.__setitem__("log_silenced", True), [(st, NONE)])[1]
-    reg.attr_models[("Logger", "handlers")] = a_handlers
-    reg.method_models[("Logger", "addHandler")] = m_add_handler
+    # logging: which handler configuration keeps records of ANY logger away from stderr/stdout (contracts/c01_logging.py)
+    from contracts import c01_logging
+    c01_logging.install(reg)
+    from pyvc import solve
+    if c01_logging.untrusted not in solve.SAT_UNTRUSTED:
+        solve.SAT_UNTRUSTED.append(c01_logging.untrusted)
     reg.ext_models["json.dumps"] = m_json_dumps
     reg.ext_models["json.dump"] = m_json_dump
     reg.method_models[("ArgParser", "parse_known_args")] = m_parse
@@ -257,7 +270,63 @@ def stream_frame(repo, tier):
 
 EXTRA = EXTRA + [stream_frame]
 
-BOUNDED = ["termination NOT decided for: pdf_extractor._TableExtractor._extract while-0 (125-line line classifier, more than 4000 paths per iteration; "
+
+# ------------------------------------ termination inside `re` (backtracking) --
+def regex_backtracking(repo, tier):
+    """Per file that imports `re`: every pattern reaching an `re` function has polynomial backtracking (no EDA in its position
+    automaton with multiplicities: contracts/c01_regex.py).  A pattern WITH EDA gets its own obligation: the bounded pumping
+    experiment on CPython's matcher (labelled bounded, never counted as proved) -- super-polynomial growth observed -> `unknown`
+    with the pumping text as replay hint (the native replayer hangs the real pattern / function / extractor in a child process),
+    none observed -> `bounded-ok`."""
+    from contracts import c01_regex as rx
+    obls = []
+    for rel in loader.all_package_files(repo):
+        if "/sharepoint_io/" in rel:
+            continue
+        mod = loader.module(rel, repo)
+        rs = rx.Resolver(mod.tree)
+        if not rs.re_names and not rs.re_funcs:
+            continue
+        base = rel.split("/")[-1]
+        oid = f"C01/{base}::*/decreases#regex-backtracking-polynomial"
+        try:
+            nsites, npat, problems, unreadable = rx.check_module(mod.tree)
+        except Exception as e:  # noqa  (pack code on an unforeseen shape: undecided, never a crash)
+            obls.append({"id": oid, "kind": "decreases", "status": "unknown", "vcs": 1, "seconds": 0.0, "backends": {"dataflow": 1}, "witness": None,
+                         "reason": f"{rel}: regex analysis failed: {type(e).__name__}: {e}"[:300], "loc": rel, "function": f"{rel}::*"})
+            continue
+        why = f"{rel}: {nsites} re call sites, {npat} distinct patterns, {npat - len(problems)} without EDA"
+        if problems:
+            why += f"; {len(problems)} with EDA handled by decreases#regex-eda-pump-* (lines {[p['line'] for p in problems]})"
+        if unreadable:
+            why += "; NOT READ: " + "; ".join(unreadable)[:400]
+        obls.append({"id": oid, "kind": "decreases", "status": "unknown" if unreadable else "proved", "vcs": max(npat, 1), "seconds": 0.0,
+                     "backends": {"dataflow": max(npat, 1)}, "witness": None, "reason": why, "loc": rel, "function": f"{rel}::*"})
+        for k, pr in enumerate(problems):
+            hit = rx.pump_experiment(pr)
+            o = {"id": f"C01/{base}::*/decreases#regex-eda-pump-{k}", "kind": "decreases", "bounded": True, "volatile": True, "vcs": 1, "seconds": 0.0,
+                 "backends": {"native-bounded": 1}, "witness": None, "loc": f"{rel}:{pr['line']}", "function": f"{rel}::{pr['function']}"}
+            head = f"{rel}:{pr['line']} pattern {pr['pattern']!r:.120} (flags {pr['flags']}) has EDA, e.g. prefix {pr['witnesses'][0][0]!r} pump {pr['witnesses'][0][1]!r}"
+            if hit is None:
+                o.update(status="bounded-ok", reason=head + f"; BOUNDED pumping experiment ({len(pr['witnesses'])} witnesses x {len(rx.SUFFIXES)} suffixes x "
+                                                          f"k <= {rx.PUMP_KS[-1]}, modes {pr['modes']}): no super-polynomial growth on CPython's matcher")
+            elif "error" in hit:
+                o.update(status="unknown", reason=head + "; pumping experiment failed: " + hit["error"])
+            else:
+                o.update(status="unknown", reason=head + f"; pumping shows super-polynomial time: k={hit['k']} took {hit['seconds']} s ({hit['mode']})",
+                         witness={"prefix": hit["prefix"], "pump": hit["pump"], "suffix": hit["suffix"], "k": hit["k"]},
+                         replay_hint={"family": "regex", "file": rel, "line": pr["line"], "name": pr["name"], "scope": pr["function"], "pattern": pr["pattern"],
+                                      "bytes": pr["bytes"], "flags": pr["flags"], "mode": hit["mode"], "prefix": hit["prefix"], "pump": hit["pump"],
+                                      "suffix": hit["suffix"], "k": hit["k"], "seconds": hit["seconds"]})
+            obls.append(o)
+    return {"obligations": obls, "functions": []}
+
+
+EXTRA = EXTRA + [regex_backtracking]
+
+BOUNDED = ["regex patterns whose position automaton has EDA are decided by a BOUNDED pumping experiment on CPython's matcher (decreases#regex-eda-pump-*: "
+           "k <= 100 pumps, every witness cycle x 13 suffixes x the match modes the module uses; pristine: rtf_extractor._RE_PICT); polynomial backtracking of high degree is not decided",
+           "termination NOT decided for: pdf_extractor._TableExtractor._extract while-0 (125-line line classifier, more than 4000 paths per iteration; "
            "its index advances by `idx += 1` or to the `next_idx` returned by _extract_word_date_header, which is not under contract); `for` loops: "
            "decreases#for-loops-finite shows per file that no loop iterates an infinite constructor or grows its own iterable, finiteness of third-party "
            "iterables (ElementTree, zipfile, xlrd, olefile, pypdf) is assumed; recursion: CPython bounds the depth (RecursionError is an Exception subclass, "
@@ -270,11 +339,21 @@ EXECUTOR_KW["sharepoint2text/__init__.py::read_file"] = {"abstract": True, "inli
 EXECUTOR_KW["sharepoint2text/parsing/extractors/archive_extractor.py::_process_archive_entry"] = {"abstract": True, "inline_calls": False, "inline_local": True}
 EXECUTOR_KW["sharepoint2text/cli.py::main"] = {"abstract": True, "inline_calls": False, "inline_local": True}
 from contracts import readfile as _rf  # noqa: E402
-EXECUTOR = _rf.ReadFileExecutor
+from contracts import c01_logging as _lg  # noqa: E402
 
-TRUSTED = ["third-party parsers terminate (their exceptions are covered by EXC-ANY)"]
+
+class C01Executor(_lg.LoggingMixin, _rf.ReadFileExecutor):
+    """read_file's shared executor + the logging-configuration ghost model of the CLI contract"""
+
+
+EXECUTOR = C01Executor
+
+TRUSTED = ["third-party parsers terminate (their exceptions are covered by EXC-ANY)",
+           "CPython's `re` explores at most the paths of the pattern's position automaton (so: polynomially many for a pattern without EDA)"]
 ASSUMED_MODELS = ["time.perf_counter/time.time: total, return a float"]
 ASSUMPTIONS = ["EXC-ANY: un-contracted calls may raise any Exception subclass (BaseException-only classes such as KeyboardInterrupt, and MemoryError/RecursionError from resource exhaustion, are not modelled: PY-MEM)",
-               "PY-GEN: generator consumer may stop after any prefix", "logger calls dropped (PY-LOG)"]
+               "PY-GEN: generator consumer may stop after any prefix", "logger calls dropped (PY-LOG)",
+               "PY-LOGGING (cli.main): a log record of any logger reaches stderr unless the ROOT logger has a handler (the code adds a quiet one, or the embedding "
+               "application configured logging before the call) or logging.disable(CRITICAL) was called; handlers of named loggers only serve their own subtree"]
 
 REPLAY_UNKNOWN = True    # undecided / out-of-subset items are searched natively (replay) before being reported UNDECIDED
